@@ -47,6 +47,9 @@ def build(desc):
     if c.labels == "full" and desc.get("cmode") not in ("feat", "idx_any"):
         c.labels = "lastone"
     c.X = gen.make_X(rng, c.n, c.d, c.data)
+    if e.x_transform is not None:
+        c.X = e.x_transform(c.X)
+        c.d = c.X.shape[1]
     n_classes = 2 if e.binary else 3
     c.classes = CLASSES[:n_classes]
     c.y_true, c.lab = gen.make_labels(rng, c.n, c.labels, kind=c.kind, n_classes=n_classes)
